@@ -231,3 +231,90 @@ def read_line(rng, c):
     if path == 'vm' or rng.random() < 0.15:
         s += " vm=1"
     return s
+
+
+def rand_ranges(rng, c, disjoint=False, allow_last=True):
+    """(M,2) half-open pixel ranges with block-boundary alignments over-represented."""
+    m = rng.choice([0, 1, 1, 2, 2, 3, 4])
+    rows = []
+    for _ in range(m):
+        k = rng.randrange(c.ncov)
+        r = rng.random()
+        if r < 0.25:
+            a = k * c.nfine
+        elif r < 0.4:
+            a = k * c.nfine + c.nfine - 1
+        else:
+            a = k * c.nfine + rng.randrange(c.nfine)
+        r = rng.random()
+        span = rng.choice([0, 1, 2, 3])
+        if r < 0.3:
+            b = min(c.npix, (a // c.nfine + span + 1) * c.nfine)      # ends on a block edge
+        elif r < 0.4 and allow_last:
+            b = c.npix
+            a = max(a, c.npix - 3 * c.nfine)
+        elif r < 0.5:
+            b = a                                                       # empty row
+        else:
+            b = min(c.npix, a + rng.randint(1, max(1, span * c.nfine + c.nfine // 2 + 1)))
+        rows.append((a, b))
+    if disjoint:
+        rows.sort()
+        out, last = [], 0
+        for a, b in rows:
+            a = max(a, last)
+            if b <= a:
+                continue
+            out.append((a, b))
+            last = b
+        rng.shuffle(out)
+        rows = out
+    else:
+        rng.shuffle(rows)
+    return rows
+
+
+def updr_line(rng, c, path=None):
+    ops = c.ops()
+    op = rng.choice(ops)
+    path = path or rng.choice(['slice', 'expand'])
+    need_disjoint = (op == 'replace') or (op == 'add' and not c.zero_sentinel())
+    rows = rand_ranges(rng, c, disjoint=need_disjoint)
+    rtxt = ','.join("%d:%d" % ab for ab in rows) or '_'
+    if rng.random() < 0.15:
+        return "updr %s op=replace none=1 ranges=%s path=%s" % (c.name, rtxt, path)
+    return "updr %s op=%s ranges=%s val=%s path=%s" % (c.name, op, rtxt, c.val(rng), path)
+
+
+def scalar_op_line(rng, c, inplace=None, r='t1'):
+    """map op scalar (copying or in place)."""
+    if inplace is None:
+        inplace = rng.random() < 0.5
+    tail = " inplace=1" if inplace else " r=%s" % r
+    if c.kind == 'wide':
+        op = rng.choice(['and', 'or', 'xor'])
+        nb = rng.randint(1, 3)
+        bits = [rng.choice([0, 7, 8, 15, 16, c.nbytes * 8 - 1, rng.randrange(c.nbytes * 8)]) % (c.nbytes * 8)
+                for _ in range(nb)]
+        return "sop %s op=%s bits=%s%s" % (c.name, op, ','.join(map(str, bits)), tail)
+    if c.is_int:
+        op = rng.choice(['add', 'sub', 'mul', 'and', 'or', 'xor', 'pow'])
+        if op == 'pow':
+            k = rng.choice([0, 1, 2, 3])
+        elif c.dtype.startswith('u'):
+            k = rng.choice([0, 1, 2, 3, 5, 12])
+        else:
+            k = rng.choice([0, 1, -1, 2, 3, -5, 12])
+        return "sop %s op=%s k=%d ktype=int%s" % (c.name, op, k, tail)
+    if c.is_flt:
+        op = rng.choice(['add', 'sub', 'mul', 'div', 'pow'])
+        if op == 'div':
+            k = rng.choice(['1', '-1', '2', '4', '-2', '1^1', '1^2'])
+        elif op == 'pow':
+            k = rng.choice(['0', '1', '2', '3'])
+        else:
+            k = dy(rng, -12, 12)
+        kt = rng.choice(['flt', 'flt', 'int']) if '^' not in k else 'flt'
+        return "sop %s op=%s k=%s ktype=%s%s" % (c.name, op, k, kt, tail)
+    # illegal on this kind (must be rejected)
+    return "sop %s op=add k=1 ktype=int%s" % (c.name, tail)
